@@ -6,7 +6,8 @@ import itertools
 
 RULE = ("exhaustive: every scripted chain over {Accept,Neutral,Reject} of length <= 4 on one appender x "
         "fails/succeeds x 5 record levels x 3 node levels; every threshold level x record level inside a "
-        "chain; then random fan-outs of 1-4 appenders (chains <= 5 incl. threshold filters, random "
+        "chain, also with the crate's ThresholdFilter attached directly (not behind the recording wrapper) at every "
+        "position among scripted filters; then random fan-outs of 1-4 appenders (chains <= 5 incl. threshold filters, random "
         "failing flags, attachment lists with repeats); then HISTORIES: random call trees (depth <= 3, <= 2 "
         "nested calls per call, 1-3 top-level calls) over 1-3 appenders and 1-3 nodes in which an appender "
         "logs further records through the same Logger from inside append() (to other appenders and to "
@@ -39,6 +40,13 @@ def cases(rng, tier):
             for pre in ([], [[0, 1]], [[0, 0]], [[0, 2]]):
                 for post in ([], [[0, 2]], [[0, 0]]):
                     out.append([5, L, [[1, pre + [[1, t]] + post]], [0]])
+    # the crate's own ThresholdFilter attached DIRECTLY (kind 2: not behind the recording wrapper) among
+    # scripted filters: every position in chains of length <= 3, every threshold x record level
+    for t in range(0, 6):
+        for L in range(1, 6):
+            for pre in ([], [[0, 1]], [[0, 0]], [[0, 2]], [[0, 1], [0, 0]], [[2, 5]], [[2, 0]]):
+                for post in ([], [[0, 2]], [[0, 0]], [[0, 1]], [[2, 3]]):
+                    out.append([5, L, [[rng.below(2), pre + [[2, t]] + post]], [0]])
     n_rand = 2000 if tier == "quick" else 40000
     for _ in range(n_rand):
         na = rng.range(1, 4)
@@ -47,7 +55,7 @@ def cases(rng, tier):
             fs = []
             for _k in range(rng.below(6)):
                 if rng.chance(1, 4):
-                    fs.append([1, rng.below(6)])
+                    fs.append([rng.choice([1, 1, 2]), rng.below(6)])
                 else:
                     fs.append([0, rng.choice([0, 1, 1, 1, 2])])
             apps.append([rng.below(2), fs])
@@ -126,6 +134,33 @@ def _history(rng):
     calls = [tree(rng.range(0, 3), None) for _ in range(rng.range(1, 3))]
     mode = 1 if (len(calls) > 1 and rng.chance(1, 3)) else 0
     return [1, apps, nodes, calls, mode]
+
+
+def _raw(c):
+    """positions (app, k) of directly attached threshold filters in a plain case"""
+    if _is_hist(c):
+        return set()
+    return {(i, k) for i, (f, fs) in enumerate(c[2]) for k, x in enumerate(fs) if x[0] == 2}
+
+
+def model_lines(ctx, cases, lines, impl_lines):
+    """the model knows one kind of threshold filter; whether the harness wraps it is not its business"""
+    vc = ctx["vc"]
+    out = []
+    for c, ln in zip(cases, lines):
+        if _raw(c):
+            c = [c[0], c[1], [[f, [[1, x[1]] if x[0] == 2 else x for x in fs]] for f, fs in c[2]], c[3]]
+            ln = vc.show(c)
+        out.append(ln)
+    return out
+
+
+def compare(c, impl, model):
+    raw = _raw(c)
+    if raw and isinstance(model, list):
+        # consultations of directly attached filters are not observable: drop them from the model's log
+        model = [e for e in model if not (isinstance(e, list) and len(e) == 3 and e[0] == 0 and (e[1], e[2]) in raw)]
+    return None if impl == model else "impl != model: events %r, model %r" % (str(impl)[:300], str(model)[:300])
 
 
 def _is_hist(c):
